@@ -62,14 +62,15 @@ def run(chk, args):
         rng = random.Random(chk.seed)
         models = oriented_models()
         chk.notes["oriented_models"] = models
-        use = models if thorough else [m for m in QUICK if m in models]
+        use = models
         scen = []
         tid = 0
-        nrep = 40 if thorough else 6
+        nrep = 24 if thorough else 6
         for m in use:
             for k in range(nrep):
                 tid += 1
-                scen.append({"tid": tid, "kind": "orient", "model": m, "seed": rng.randrange(1 << 30), "njit": k % 4})
+                scen.append({"tid": tid, "kind": "orient", "model": m, "seed": rng.randrange(1 << 30), "njit": k % 4,
+                             "size": k % 3 == 2, "cutoff": k % 2 == 1})
             for law in ("detector-rotation", "inversion", "one-d-ignores-orientation"):
                 for _ in range(4 if thorough else 1):
                     tid += 1
